@@ -33,7 +33,7 @@ CHECKS = {
     "C02": {
         "level": "exploration",
         "level_text": "seeded search over node/service names, payload sizes up to the MTU, topologies mixing datagram links and framed byte "
-                      "streams with seeded fragmentation, concurrent senders; every received datagram is matched against the multiset of sends The thorough tier ends with a race-detector pass of the same scenarios (data races among a node's senders).",
+                      "streams with seeded fragmentation, concurrent senders; every received datagram is matched against the multiset of sends. The thorough tier ends with a race-detector pass of the same scenarios (data races among a node's senders).",
         "level_note": "sampling; 64-bit name-hash collisions are out of reach of random search; trusted base as C01",
         "quick": {"runs": 400, "per_proc": 25},
         "thorough": {"runs": 30000, "per_proc": 100},
@@ -205,7 +205,9 @@ CHECKS = {
         "level_text": "seeded histories of submit / burst-submit / status / list / cancel / release / force-release / results from 4 concurrent "
                       "clients against stub-runner units; a monitor on every status rewrite (old and new record read under the writer's lock "
                       "through the step hook) and on every client-visible report checks stage monotonicity, frozen succeeded units and "
-                      "non-shrinking sizes; released units must be gone from disk and from every later answer; IDs and directories unique",
+                      "non-shrinking sizes; released units must be gone from disk and from every later answer; IDs and directories unique. "
+                      "Also: lookups by other sessions inside a release's removal window, and (15 % of the runs) scheduled histories of updates, loads and "
+                      "in-memory reports on one unit - what the daemon reports from memory never goes back",
         "level_note": "about 1 run in 20 replaces the stub runner by the real runner binary built from the tree (real shell payloads, some "
                       "ignoring SIGINT), parked and released at its file steps through the step gate: there 'cancel stops the process' is "
                       "checked against /proc, and the runner process's own writes are checked for forward-only stages",
@@ -226,7 +228,10 @@ CHECKS = {
                       "processes (own StatusFileData, own descriptors, own directory alias) and 0-3 daemon goroutines on one BaseWorkUnit; a "
                       "scheduler runs exactly one task at a time and switches at every file step (lock, open, write, truncate, read), "
                       "releasing a task into a lock step only when a non-blocking flock probe succeeds; every history is checked with "
-                      "porcupine against a sequential record model, plus per-owner update counts and parse results of every load",
+                      "porcupine against a sequential record model, plus per-owner update counts and parse results of every load. Also: first writes on an "
+                      "empty record, absolute assignments repeated through long-lived record objects (register semantics), and the daemon's in-memory view "
+                      "(never goes back; own goroutines' updates visible from the moment they return), with daemon tasks interleaving wherever the unit's "
+                      "mutex lets them",
         "level_note": "the exclusion exercised is the real flock on real files; daemon goroutines are admitted into an operation one at a time "
                       "(they serialise on the unit's mutex in the code); histories are <= 24 operations so the linearizability check is exact; "
                       "about 1 run in 50 pits the daemon against the real runner binary instead (order of the two first updates decided by the "
